@@ -255,3 +255,32 @@ Definition mFSet : fvar IL -> iexpr -> finstr IL := @FSet IL.
 Definition mFLabel : label -> finstr IL := @FLabel IL.
 Definition mFGoto : label -> finstr IL := @FGoto IL.
 Definition mFCondGoto : kw -> fcond IL -> label -> finstr IL := @FCondGoto IL.
+
+(* ---- classification (for the replay files and the known-finding classes) ---- *)
+Fixpoint cases_with (f : c06case -> bool) (n : N) (l : list c06case) : list N :=
+  match l with
+  | [] => []
+  | c :: t => if f c then n :: cases_with f (n + 1) t else cases_with f (n + 1) t
+  end.
+
+(* tag of a run: 0 = before and after agree; 61/62/63 = they differ and the guarded run stops at
+   that guard (E_NEGCOUNT / E_NEGCOUNTER / E_TIMERESET); 1 = they differ and no guard accounts for it *)
+Definition run_tag (fl : flavour) (p : block IL) (run : Z * iregs * ires * ires) : N :=
+  match run with
+  | (t, r, before, after) =>
+      if ires_eqb before after then 0%N
+      else match run_struct IL FUEL (Strict fl) p (st0 t r) with
+           | Err tag => N.of_nat tag
+           | _ => 1%N
+           end
+  end.
+Definition has_tag (tag : N) (c : c06case) : bool :=
+  match c with KProg fl p _ runs => existsb (fun run => N.eqb (run_tag fl p run) tag) runs end.
+Definition tag1_cases := cases_with (has_tag 1%N).
+Definition tag61_cases := cases_with (has_tag 61%N).
+Definition tag62_cases := cases_with (has_tag 62%N).
+Definition tag63_cases := cases_with (has_tag 63%N).
+Definition diag1_cases := cases_with (fun c => N.eqb (diagnose c) 1%N).
+Definition diag2_cases := cases_with (fun c => N.eqb (diagnose c) 2%N).
+Definition diag3_cases := cases_with (fun c => N.eqb (diagnose c) 3%N).
+Definition diag4_cases := cases_with (fun c => N.eqb (diagnose c) 4%N).
